@@ -1,0 +1,25 @@
+//go:build verif
+
+// Exports for the verification harness (/verif). Adds code only; compiled only with -tags verif.
+
+package cli
+
+import (
+	"github.com/xlab/treeprint"
+
+	"github.com/prometheus/alertmanager/api/v2/models"
+	"github.com/prometheus/alertmanager/dispatch"
+)
+
+// VerifResolveAlertReceivers exposes resolveAlertReceivers, the function behind
+// `amtool config routes test`.
+func VerifResolveAlertReceivers(mainRoute *dispatch.Route, ls models.LabelSet) ([]string, error) {
+	return resolveAlertReceivers(mainRoute, &ls)
+}
+
+// VerifMatchingTree renders what `amtool config routes test --tree` prints for a label set.
+func VerifMatchingTree(mainRoute *dispatch.Route, ls models.LabelSet) string {
+	tree := treeprint.New()
+	getMatchingTree(mainRoute, tree, ls)
+	return tree.String()
+}
